@@ -99,6 +99,31 @@ class ScpBytestring:
                 and payload_is(result, 14 + 4 * n, self.data))
 
 
+@contract("rig/machine_control/packets.py::SDPPacket.bytestring", variant="scp_any_arguments")
+class ScpBytestringAnyArguments:
+    """"... the command, sequence number, the PRESENT arguments and the payload": also when the arguments present are not the
+    leading ones (arg2 without arg1, arg3 alone): each present argument follows the ones present before it, nothing stands in for
+    an absent one, the payload follows the last present argument"""
+    properties = ("C15",)
+    params = dict(self=SCP)
+    result = BYTES
+    options = {"no_merge": True}
+
+    def native(self):
+        return _mk_scp(self).bytestring
+
+    def ensures_present_arguments_in_order_without_gaps(self, result):
+        k1 = 0 if self.arg1 is None else 1
+        k2 = k1 + (0 if self.arg2 is None else 1)
+        k3 = k2 + (0 if self.arg3 is None else 1)
+        return (header_ok(self, result)
+                and le16(result, 10) == self.cmd_rc and le16(result, 12) == self.seq
+                and (self.arg1 is None or le32(result, 14) == unopt(self.arg1))
+                and (self.arg2 is None or le32(result, 14 + 4 * k1) == unopt(self.arg2))
+                and (self.arg3 is None or le32(result, 14 + 4 * k2) == unopt(self.arg3))
+                and payload_is(result, 14 + 4 * k3, self.data))
+
+
 # ---- decoders ------------------------------------------------------------------------------------
 @contract("rig/machine_control/packets.py::SDPPacket.from_bytestring")
 class SdpFromBytestring:
